@@ -18,6 +18,8 @@ struct ThreadOp {
 
 // the policy that is updated concurrently (never the one being called)
 struct upd_policy : policy::release::rebind<upd_policy> {};
+template<>
+struct DeclaredIndirect<upd_policy> : std::false_type {};
 
 template<class P>
 Outcome run_threads(const json& c, const std::string&) {
